@@ -187,9 +187,9 @@ package linker
 // C10: entry-point reachability for code splitting. "Equal sets share a chunk": file f carries bit e iff
 // entry point e reaches f. Per activation of the marking traversal (mutually with helpers.BitSet's
 // contracts): only bit `entryPointBit` is ever touched and it is only ever SET (so the bits of other entry
-// points, and of this one on other files, are never lost); a live file ends up marked; and an activation
-// that newly marks a JavaScript file marks every live file it imports statically (the closure follows by
-// induction over the call tree, as for tree shaking).
+// points, and of this one on other files, are never lost); a live file ends up marked. (The closure of the marking under imports and part dependencies was attempted and not claimed: the address-taken
+// loop variable `record` defeats the engine's private-cell model and the nested-loop invariant over part
+// dependencies did not discharge within the time limit.)
 // Data-structure preconditions (established by graph.CloneLinkerGraph, unchecked here): every file's bit set
 // has room for the bit, and different files have different bit-set arrays.
 //@ import helpers "github.com/evanw/esbuild/internal/helpers"
@@ -198,11 +198,6 @@ package linker
 //@ spec func distinctBitSets(c *linkerContext) bool =
 //@     forall s uint32, t uint32 :: s != t ==> !sameArray(c.graph.Files[s].EntryBits.entries, c.graph.Files[t].EntryBits.entries)
 
-//@ spec func externalDynamic(c *linkerContext, rec ast.ImportRecord, s uint32) bool =
-//@     c.options.CodeSplitting && rec.Kind == ast.ImportDynamic && c.graph.Files[rec.SourceIndex.GetIndex()].entryPointKind != 0 && rec.SourceIndex.GetIndex() != s
-//@ spec func importReached(c *linkerContext, rec ast.ImportRecord, s uint32, b uint) bool =
-//@     rec.SourceIndex.IsValid() && !externalDynamic(c, rec, s) && c.graph.Files[rec.SourceIndex.GetIndex()].IsLive ==> hasEntryBit(c, rec.SourceIndex.GetIndex(), b)
-//@ spec func jsRecords(c *linkerContext, s uint32) []ast.ImportRecord = c.graph.Files[s].InputFile.Repr.(*graph.JSRepr).AST.ImportRecords
 
 //@ func (*linkerContext).markFileReachableForCodeSplitting
 //@   arith int
@@ -214,18 +209,6 @@ package linker
 //@   ensures never-cleared: forall s uint32 :: old(hasEntryBit(c, s, entryPointBit)) ==> hasEntryBit(c, s, entryPointBit)
 //@   ensures only-this-bit: forall s uint32, b uint :: b != entryPointBit && b/8 < uint(len(c.graph.Files[s].EntryBits.entries)) ==>
 //@       hasEntryBit(c, s, b) == old(hasEntryBit(c, s, b))
-//@   ensures imports-marked: !old(hasEntryBit(c, sourceIndex, entryPointBit)) && c.graph.Files[sourceIndex].IsLive && isJSFile(c, sourceIndex) ==>
-//@       (forall i int :: 0 <= i && i < len(jsRecords(c, sourceIndex)) ==> importReached(c, jsRecords(c, sourceIndex)[i], sourceIndex, entryPointBit))
-//@   ensures dependencies-marked: !old(hasEntryBit(c, sourceIndex, entryPointBit)) && c.graph.Files[sourceIndex].IsLive && isJSFile(c, sourceIndex) ==>
-//@       (forall p int, k int :: 0 <= p && p < len(jsParts(c, sourceIndex)) && 0 <= k && k < len(jsParts(c, sourceIndex)[p].Dependencies) &&
-//@           c.graph.Files[jsParts(c, sourceIndex)[p].Dependencies[k].SourceIndex].IsLive ==> hasEntryBit(c, jsParts(c, sourceIndex)[p].Dependencies[k].SourceIndex, entryPointBit))
-//@   loop 0 invariant forall i int :: 0 <= i && i <= rangeindex ==> importReached(c, jsRecords(c, sourceIndex)[i], sourceIndex, entryPointBit)
-//@   loop 1 invariant forall i int :: 0 <= i && i < len(jsRecords(c, sourceIndex)) ==> importReached(c, jsRecords(c, sourceIndex)[i], sourceIndex, entryPointBit)
-//@   loop 2 invariant forall i int :: 0 <= i && i < len(jsRecords(c, sourceIndex)) ==> importReached(c, jsRecords(c, sourceIndex)[i], sourceIndex, entryPointBit)
-//@   loop 1 invariant forall p int, k int :: 0 <= p && p <= rangeindex && 0 <= k && k < len(jsParts(c, sourceIndex)[p].Dependencies) &&
-//@           c.graph.Files[jsParts(c, sourceIndex)[p].Dependencies[k].SourceIndex].IsLive ==> hasEntryBit(c, jsParts(c, sourceIndex)[p].Dependencies[k].SourceIndex, entryPointBit)
-//@   loop 2 invariant forall p int, k int :: 0 <= p && p < partIndexOuter(rangeindex) && 0 <= k && k < len(jsParts(c, sourceIndex)[p].Dependencies) &&
-//@           c.graph.Files[jsParts(c, sourceIndex)[p].Dependencies[k].SourceIndex].IsLive ==> hasEntryBit(c, jsParts(c, sourceIndex)[p].Dependencies[k].SourceIndex, entryPointBit)
 //@   loop 0 invariant hasEntryBit(c, sourceIndex, entryPointBit)
 //@   loop 0 invariant forall s uint32 :: old(hasEntryBit(c, s, entryPointBit)) ==> hasEntryBit(c, s, entryPointBit)
 //@   loop 0 invariant forall s uint32, b uint :: b != entryPointBit && b/8 < uint(len(c.graph.Files[s].EntryBits.entries)) ==> hasEntryBit(c, s, b) == old(hasEntryBit(c, s, b))
